@@ -15,6 +15,8 @@
 (*                               entry, transfer inside the frame, restore   *)
 (*                               of the snapshot when the frame fails)       *)
 (*   mainchain/kvm/kvm.go  CanTransfer, Transfer  -> the guards and Move     *)
+(*   kvm/gas.go gasCall.. / callGas, kvm/instructions.go opCall.. (gas only)  *)
+(*                            -> FrameGasSound, CallGasExact                 *)
 (*   types/gas_pool.go  SubGas / AddGas           -> the `pool` field        *)
 (*   mainchain/tx_pool/tx_pool_utils.go IntrinsicGas -> the field tx.intr    *)
 (*     (taken from the real function, see below)                            *)
@@ -307,6 +309,68 @@ RejectTx(w, tx) ==
 
 \* what ApplyTransaction itself may leave in the pool when it returns an error (callee's contract)
 RawPoolAfterError(w, tx) == IF Late(Class(w, tx)) THEN {w.pool, w.pool - tx.gas} ELSE {w.pool}
+
+(***************************************************************************)
+(* Gas of call frames (kvm/gas.go gasCall / gasCallCode / gasDelegateCall /  *)
+(* gasStaticCall / callGas, kvm/instructions.go opCall .. opCreate2).        *)
+(*                                                                         *)
+(* GasBounds speaks about a whole transaction; it holds for every byte code  *)
+(* only if no single call-family instruction hands out gas that was not      *)
+(* paid for.  A call-site is one executed CALL / CALLCODE / DELEGATECALL /   *)
+(* STATICCALL / CREATE(2):                                                   *)
+(*   [kind, vnz, req, gb, gc, cost, ga, entered, passed, used]               *)
+(*   vnz      the value operand is not zero -- read as an UNSIGNED 256-bit   *)
+(*            word (2^255 and above are values, not negative numbers)        *)
+(*   req      the gas operand (-1: does not fit 64 bits)                     *)
+(*   gb gc ga gas of the executing frame before the instruction, after it    *)
+(*            has been charged, after it has completed                       *)
+(*   cost     the instruction's cost as the interpreter computes it          *)
+(*   entered  a frame was entered (otherwise the call failed its depth or    *)
+(*            balance test and gave everything back)                         *)
+(*   passed   gas handed to the entered frame;  used: gas it used            *)
+(*                                                                         *)
+(* FrameGasSound: the gas a call gives back never exceeds the gas passed to  *)
+(* it plus the stipend; what is passed (net of the stipend) has been         *)
+(* charged to the caller on top of the value-transfer gas; an entered frame  *)
+(* uses at most what it was handed and returns exactly the rest.  The        *)
+(* stipend is granted, and the transfer gas charged, iff vnz.                *)
+(* Hence a call-family instruction never increases the gas of its frame.     *)
+(***************************************************************************)
+CallStipend == 2300             \* configs.CallStipend
+CallValueTransferGas == 9000    \* configs.CallValueTransferGas
+
+FrameGasSound(s) ==
+  LET charged == s.gb - s.gc            \* what the instruction cost the frame up front
+      ret     == s.ga - s.gc            \* what came back when it completed
+      pays    == s.kind \in {"call", "ccode"} /\ s.vnz = 1
+      xfer    == IF pays THEN CallValueTransferGas ELSE 0
+      stip    == IF pays THEN CallStipend ELSE 0
+  IN
+  /\ charged >= 0
+  /\ IF s.kind = "create"
+     THEN \* opCreate takes gc - gc/64 out of the frame while executing and puts back what is left
+          /\ s.ga <= s.gc
+          /\ s.entered = 1 => /\ s.passed <= s.gc /\ s.used <= s.passed /\ s.ga = s.gc - s.used
+          /\ s.entered = 0 => s.ga = s.gc
+     ELSE /\ ret >= 0
+          /\ ret <= charged - xfer + stip
+          /\ s.entered = 1 => /\ s.passed <= charged - xfer + stip
+                              /\ s.used <= s.passed
+                              /\ ret = s.passed - s.used
+
+(* Lock-step only (reference semantics of the gas operand, EIP-150; not part of the statement of   *)
+(* C09 -- a deviation is counted, not reported): the gas a call passes on is the requested amount,  *)
+(* capped at all but one 64th of what the frame has left after the instruction's other costs.      *)
+CallGasExact(s) ==
+  s.kind = "create" \/
+  LET pays  == s.kind \in {"call", "ccode"} /\ s.vnz = 1
+      stip  == IF pays THEN CallStipend ELSE 0
+      cgt   == (IF s.entered = 1 THEN s.passed ELSE s.ga - s.gc) - stip
+      \* gas available to callGas: what is left + what was forwarded (+ the constant gas the
+      \* pre-Galaxias interpreter charges a second time: charged - cost)
+      avail == s.gc + cgt + ((s.gb - s.gc) - s.cost)
+      cap   == avail - (avail \div 64)
+  IN cgt = IF s.req = -1 \/ cap < s.req THEN cap ELSE s.req
 
 (***************************************************************************)
 (* The two loops around ApplyTransaction in terms of the fate of every       *)
